@@ -86,3 +86,46 @@ def strayCalls (c : Net) (sc : Nat) (tr : List (Nat × Nat × Outcome)) : Nat :=
   ((tr.filter fun (i, _, _) => stubAddr c sc i != c.target).map fun (_, _, o) => o.calls.length).foldl (· + ·) 0
 
 end Pandora.Model.C20
+
+/-! ### grpc/json: a line of the ammo file becomes the POOLED ammo object
+
+`grpcjson.decodeAmmo(line, pooled)`: the provider takes an `Ammo` from a `sync.Pool` (whatever its previous use left in
+it), decodes the JSON line into a FRESH zero-valued `Ammo` and resets the pooled one with the four fields of the fresh
+one (`Reset` assigns the whole struct). JSON decoding INTO an existing object leaves the fields whose keys are absent
+from the line as they are and merges into an existing map — which is why the fresh object matters. -/
+
+namespace Pandora.Model.C20
+
+/-- a line of the ammo file: every key may be absent -/
+structure Line where
+  tag : Option String := none
+  call : Option String := none
+  md : Option (List (String × String)) := none
+  payload : Option (List (String × PVal)) := none
+
+def zeroEntry : Entry := { tag := "", call := "", md := [], payload := [] }
+
+/-- merge `new` into an existing map: keys of `new` overwrite / are added, other keys of `old` stay -/
+def mergeMap {β : Type} (old new : List (String × β)) : List (String × β) :=
+  (old.filter fun (k, _) => !(new.any fun (k', _) => k' == k)) ++ new
+
+/-- `json.Unmarshal(line, &target)`: present keys overwrite (maps: merge into the existing one), absent keys keep -/
+def unmarshalInto (target : Entry) (l : Line) : Entry :=
+  { tag := l.tag.getD target.tag, call := l.call.getD target.call,
+    md := match l.md with | some m => mergeMap target.md m | none => target.md,
+    payload := match l.payload with | some m => mergeMap target.payload m | none => target.payload }
+
+/-- `(*Ammo).Reset(tag, call, metadata, payload)`: the whole struct is assigned -/
+def resetAmmo (_pooled : Entry) (tag call : String) (md : List (String × String)) (payload : List (String × PVal)) : Entry :=
+  { tag := tag, call := call, md := md, payload := payload }
+
+/-- the code as it is: decode into a fresh object, reset the pooled one from it -/
+def decodeAmmo (pooled : Entry) (l : Line) : Entry :=
+  let fresh := unmarshalInto zeroEntry l
+  resetAmmo pooled fresh.tag fresh.call fresh.md fresh.payload
+
+/-- the "allocation optimisation": clear tag and call, keep the maps, decode in place -/
+def decodeAmmoInPlace (pooled : Entry) (l : Line) : Entry :=
+  unmarshalInto (resetAmmo pooled "" "" pooled.md pooled.payload) l
+
+end Pandora.Model.C20
